@@ -262,6 +262,10 @@ Definition manifold_closedb (ts : list itri) : bool :=
                            Nat.eqb (count_edge c (snd e) (fst e)) 1 &&
                            negb (fst e =? snd e)) c.
 
+(* executable form of `closed`: every directed edge that occurs has net coefficient 0 *)
+Definition chain_closedb (ts : list itri) : bool :=
+  let c := tchain ts in forallb (fun e : edge => ccoef c (fst e) (snd e) =? 0) c.
+
 Definition shape_ok (verts : list v3) (ts : list itri) : bool :=
   forallb (tri_in_rangeb (zn (length verts))) ts && manifold_closedb ts &&
   (0 <? pvolume6 (tris_of verts ts)).
